@@ -265,18 +265,28 @@ class Evaluator(object):
         self._exec_function_body(init, env)
 
     # -------------------------------------------------------------------------------------------- module level
-    def eval_in_module(self, module, expr):
-        return self.eval(expr, {}, _ModuleScope(module))
+    def eval_in_module(self, module, expr, before=None):
+        sc = _ModuleScope(module)
+        sc.before = before
+        return self.eval(expr, {}, sc)
 
-    def global_value(self, module, name, node=None):
+    def global_value(self, module, name, node=None, before=None):
         g = self.repo.resolve_global(module, name)
         if g is None:
             return self.unknown('unresolved global %s' % name, node)
+        if isinstance(g, ModuleConst) and before is not None and g.module is module and len(module.assigns.get(name, ())) > 1:
+            # a module-level expression sees the binding that was in force when its own statement ran: a name bound again further down
+            # (a constant "re-referenced" after its reverse was derived from it) denotes the EARLIER value up there
+            earlier = [(v_, st_) for v_, st_ in module.assigns[name] if st_.lineno < before]
+            if earlier and earlier[-1][1] is not g.stmt:
+                v_, st_ = earlier[-1]
+                g = ModuleConst(module, name, v_, st_)
+                g._key_suffix = '@%d' % st_.lineno
         if isinstance(g, ModuleConst):
-            k = g.key
+            k = g.key + getattr(g, '_key_suffix', '')
             if k not in self._const_cache:
                 self._const_cache[k] = None
-                v = self.eval_in_module(g.module, g.value)
+                v = self.eval_in_module(g.module, g.value, before=g.stmt.lineno)
                 if isinstance(v, Obj) and v.origin is None:
                     v.origin = 'const:' + g.name
                 self._const_cache[k] = v
@@ -300,7 +310,7 @@ class Evaluator(object):
         fn = self._stack[-1].qualname if self._stack else '<module>'
         to_int = len(a) == 1 and not kwargs
         table = CONFIRMED_ROUNDINGS.get(fn)
-        if self._stack and not getattr(self._stack[-1].module, 'name', 'geodepy').startswith('geodepy'):
+        if self._stack and not getattr(self._stack[-1].module, 'name', 'geodepy').startswith(('geodepy', 'api', 'Standalone')):
             # a reference formula of the checker (oracle module): its roundings are those of the reference
             table = 'any'
         if to_int:
@@ -585,6 +595,11 @@ class Evaluator(object):
                 if len(INPLACE_EVENTS) > 5000:
                     del INPLACE_EVENTS[:2500]
             v = self.binop(st.op, cur, rhs_, st)
+            if isinstance(cur, Mat) and isinstance(v, Mat) and isinstance(st.target, ast.Name) and v.shape == cur.shape and v is not cur \
+                    and not isinstance(st.op, ast.MatMult):
+                # numpy updates the array IN PLACE: every other name bound to the same array (b = a; b *= 2) sees the new values
+                cur.data = v.data
+                return Outcome(env)
             self.assign(st.target, v, env, func)
             return Outcome(env)
         if isinstance(st, ast.Expr):
@@ -921,7 +936,7 @@ class Evaluator(object):
                 return self.unknown('unbound %s' % e.id, e)
             return v
         if isinstance(func, _ModuleScope):
-            return self.global_value(func.module, e.id, e)
+            return self.global_value(func.module, e.id, e, before=getattr(func, 'before', None))
         if isinstance(func, Func):
             k = id(func)
             if k not in self._assigned_cache:
@@ -2256,9 +2271,12 @@ def _const_key(v):
 
 def _copy_env(env):
     out = {}
+    memo = {}       # two names that denote ONE array keep denoting one array in the copy
     for k, v in env.items():
         if isinstance(v, Mat):
-            out[k] = Mat(_mat_map(v.data, lambda x: x), v.shape, v.origin)
+            if id(v) not in memo:
+                memo[id(v)] = Mat(_mat_map(v.data, lambda x: x), v.shape, v.origin)
+            out[k] = memo[id(v)]
         elif isinstance(v, Tup) and v.is_list:
             out[k] = Tup(list(v.items), True)
         elif isinstance(v, DictV):
